@@ -31,7 +31,7 @@ def spec(pidmode, fds, names, kinds):
         if len(l) != n or "varlink" not in l:
             return "fallback"
         i = l.index("varlink")
-    if i < len(ks) and ks[i] == "s":
+    if i < len(ks) and ks[i] in ("s", "S"):
         return "inherited:%d" % i
     return "fallback"
 
@@ -40,7 +40,7 @@ def main(pid, argv):
     ck = V.Check(pid, argv)
     ck.rule = ("the full product {LISTEN_PID matches (also written +pid), differs, unset, garbage} x LISTEN_FDS in {unset, '', foo, -1, 0, 1, 2, 3, +2, 02, 1x, ' 1', "
                "99999999999999999999} x LISTEN_FDNAMES in {unset, '', varlink, wrong arity, varlink first/middle/last/twice/absent, Varlink, 'varlink '} x kinds of the "
-               "passed descriptors (listening unix socket, regular file, pipe, none), each case a fresh child process started with exactly that environment; the child "
+               "passed descriptors (listening abstract unix socket, listening filesystem socket whose path is also the address passed to Bind, regular file, pipe, none), each case a fresh child process started with exactly that environment; the child "
                "binds a Service and reports its listener's address. distinct = distinct cases; non-trivial = LISTEN_PID matches and LISTEN_FDS parses")
     ck.assumptions = ["net.FileListener's verdict on a descriptor is an oracle argument of the model (is_socket); here: listening unix socket vs regular file vs pipe vs closed"]
     ck.check_obligations()
@@ -52,7 +52,8 @@ def main(pid, argv):
     fds_vals = ["-", "EMPTY", "foo", "-1", "0", "1", "2", "3", "+2", "02", "1x", "99999999999999999999", "4"]
     names_vals = ["-", "EMPTY", "varlink", "varlink:x", "x:varlink", "x:varlink:y", "x:y:varlink", "varlink:varlink:x", "x:varlink:varlink", "a:b:c", "a:b", "Varlink:x",
                   "varlink:", ":varlink", "x:y:z:varlink", "::varlink"]
-    kinds_vals = ["s", "f", "p", "-", "s,s", "s,f", "f,s", "s,s,s", "f,s,s", "s,f,s", "s,s,f", "p,s,f", "s,s,s,s"]
+    # S = a filesystem socket whose path is also the address given to Bind (s = abstract socket, another address)
+    kinds_vals = ["s", "f", "p", "-", "s,s", "s,f", "f,s", "s,s,s", "f,s,s", "s,f,s", "s,s,f", "p,s,f", "s,s,s,s", "S", "s,S", "S,s", "f,S,s"]
     if ck.replay:
         cases = [json.load(open(ck.replay))["failing"]["case"]]
     else:
@@ -61,7 +62,7 @@ def main(pid, argv):
             cases = full
         else:
             cases = [c for c in full if c.split()[0] == "match" and c.split()[1] in ("1", "2", "3", "02", "+2", "0", "-", "foo")
-                     and c.split()[3] in ("s", "f", "s,s", "f,s", "s,f,s", "s,s,s", "-")]
+                     and c.split()[3] in ("s", "f", "s,s", "f,s", "s,f,s", "s,s,s", "-", "S", "s,S", "S,s")]
             cases += rng.sample(full, 400)
             cases = list(dict.fromkeys(cases))
     impl = C.run_sharded([bins["h_act"]], cases, jobs=14)
